@@ -26,7 +26,7 @@ func c15tier(t string) int {
 	if t == "thorough" {
 		return 1500000
 	}
-	return 300000
+	return 200000
 }
 
 const c15Unit = 250
@@ -40,9 +40,37 @@ var docPool = []string{
 
 var scalarDocs = []string{`null`, `false`, `true`, `0`, `1.50`, `"str"`, `"a\u0000b"`, `[]`, `{}`, `[1,[2]]`, `100000000000000000000`, `-0`, `"multi\nline"`, `[null,false]`}
 
+// bigDoc is a document larger than the decoder's and the encoder's internal buffers.
+func bigDoc(r *kernel.Rand, id int) string {
+	n := kernel.Pick(r, []int{300, 600, 1500, 5000})
+	var sb strings.Builder
+	fmt.Fprintf(&sb, `{"id":%d,"big":[`, id)
+	for i := 0; i < n; i++ {
+		if i > 0 {
+			sb.WriteString(",")
+		}
+		switch i % 4 {
+		case 0:
+			fmt.Fprintf(&sb, "%d", i*7+id)
+		case 1:
+			fmt.Fprintf(&sb, `"s%d é"`, i)
+		case 2:
+			fmt.Fprintf(&sb, `{"k%d":[%d,null]}`, i, i)
+		default:
+			fmt.Fprintf(&sb, "%d.5", i)
+		}
+	}
+	sb.WriteString("]}")
+	return sb.String()
+}
+
 func genDocs(r *kernel.Rand, n int) []string {
 	docs := make([]string, n)
 	for i := range docs {
+		if r.Bool(0.04) {
+			docs[i] = bigDoc(r, i+1)
+			continue
+		}
 		if r.Bool(0.7) {
 			docs[i] = fmt.Sprintf(kernel.Pick(r, docPool), i+1)
 		} else {
@@ -71,6 +99,8 @@ var c15Items = []string{
 	`.[]?`, `(.v?|.[]?)`, `tojson`, `(.id?|tostring)`, `(select(.id? == %d) | error("on id"))`, `(select(.id? == %d) | halt_error(7))`, `(select(.id? == %d) | halt)`,
 	`(select(.id? == %d) | "hit")`, `(.v? // "alt")`, `(try error("c") catch .)`, `(.id? | select(. != null) | . * 2)`, `100000000000000000000`, `1.0`, `(.v? | select(type == "string"))`,
 	`input`, `(try input catch "none")`, `[limit(1; inputs)]`, `(1/0)?`, `(. as $x | $x)`, `$__loc__.line`, `input_line_number`,
+	// outputs larger than the encoder's flush threshold
+	`[range(2500)]`, `("x" * 9000)`, `[range(400) | {a: ., b: "str é"}]`, `(.big? | length)`, `[.big?[]? | tostring] | join(",")`, `{a: [range(1200)], b: .id?}`,
 }
 
 func genC15Query(r *kernel.Rand, ndocs int, allowInput bool) string {
